@@ -239,7 +239,8 @@ class GroupBy:
                 *group_key_list, sort=False
             )
 
-        self.result_index.names = group_key_names
+        # (a new object: the labels can be the caller's own index, e.g. a RangeIndex key)
+        self._result_index = self._result_index.set_names(group_key_names)
 
     @cached_property
     def _group_key_lengths(self):
